@@ -130,7 +130,7 @@ impl Property for C14 {
         tier.pick(3000, 40000)
     }
     fn strategy(&self, tier: Tier) -> BoxedStrategy<Case> {
-        let direct = (proptest::collection::vec(op(), 1..=tier.pick(30usize, 60usize)), prop_oneof![2 => Just(false), 1 => Just(true)]).prop_map(|(ops, single_key)| Case { ops, single_key, sweep: None }).boxed();
+        let direct = (proptest::collection::vec(op(), 1..=tier.pick(30usize, 60usize)), prop_oneof![2 => Just(false), 1 => Just(true)], crate::engine::repeats()).prop_map(|(ops, single_key, reps)| Case { ops: crate::engine::with_repeats(ops, &reps), single_key, sweep: None }).boxed();
         match crate::sweep::strategy(crate::sweep::Rule::GasOut) {
             Some(sw) => prop_oneof![3 => direct, 1 => sw.prop_map(|s| Case { ops: vec![], single_key: false, sweep: Some(s) })].boxed(),
             None => direct,
